@@ -72,6 +72,17 @@ CHECKS = {
             "side-state move, field assignments) to depth 2 on the full and depth 3 on a reduced alphabet on a bare SyncState, "
             "plus the same index/pending-set invariants after every transition of an engine exploration.",
             NOTE_E1, "5/C11"),
+    "C12": ("seqx", TECH_E1 + " with a confinement monitor",
+            "Accounts with content outside both roots (another folder, a prefix-sibling folder, a file at the account root); "
+            "histories mixing inside operations, outside operations and moves across the boundary in every interleaving; after "
+            "every engine step the outside snapshot of both accounts is unchanged, every engine create/mkdir/rename target lies "
+            "inside its root on a component boundary, outside-only bytes never appear on the other side; inside trees converge; "
+            "a custom translate declining 'skip*' names is honoured.", NOTE_E1, "5/C12"),
+    "C14": ("seqx", "exhaustive enumeration of event-stream manglings on executions of the real engine, differential oracle",
+            "For every history (<=2 ops, users first) and each side, every mangling of the first event delivery - every subset "
+            "duplicated (adjacent and late), every permutation of <=4 events on id-stable sides, path fields dropped, id-less and "
+            "unknown-id events injected, a full walk queued at three positions, per-event batching - must end in the same quiet "
+            "trees as the unmangled run, without new artefacts or spurious transfers.", NOTE_E1, "5/C14"),
     "C13": ("enumx", TECH_E4,
             "Every string up to length 5 (6 thorough) over an 8-symbol alphabet for the unary laws, all folder/relative-part "
             "pairs from strings up to length 3 (4) for subpath, prefix-sibling, replace and match laws, four helper "
